@@ -239,6 +239,10 @@ def gen_alphas(rng, code, a0, n_random, single=False):
         bps += [a0, -a0]
     out = []
     for bp in bps:
+        if bp == 0.0 and code not in ('0', '1'):
+            # 0 is a breakpoint of codes 0 and 1 only; elsewhere tiny (not denormal) values instead of its ulp neighbours
+            out += [0.0, 2.0 ** -30, -2.0 ** -30, 2.0 ** -20, -2.0 ** -20]
+            continue
         out += [bp] + [nxt(bp, k, single) for k in (1, 2, -1, -2)]
     core_hi = a0 if code == '4' else 1.0
     for _ in range(n_random):
@@ -652,14 +656,16 @@ def run(ctx):
 
     # ---- model values from Coq -------------------------------------------------------------
     keys = sorted(obs, key=lambda k: (k[0], k[1], k[2:]))
+    nsh = 2 * core.NCPU
+    keys = [k for r in range(nsh) for k in keys[r::nsh]]          # spread the expensive points over the shards
     model = {}          # key -> Fraction certified for the Coq model (exact for Qc codes, within 1e-13 for interval codes)
     model_problem = {}  # key -> text
     qkeys = [k for k in keys if k[0] in ADDITIVE]
     ikeys = [k for k in keys if k[0] not in ADDITIVE]
     try:
-        res = core.coq_eval(ctx, 'points', QC_HEADER % (' PV.gen.InterpGen' if have_gen else ''), [qc_point_expr(k, have_gen) for k in qkeys], shard=40)
+        res = core.coq_eval(ctx, 'points', QC_HEADER % (' PV.gen.InterpGen' if have_gen else ''), [qc_point_expr(k, have_gen) for k in qkeys], shard=max(10, len(qkeys) // (2 * core.NCPU) + 1))
         for k, r in zip(qkeys, res):
-            (sn, sd), (fn_, fd) = core.parse_qc(r)
+            sn, sd, (fn_, fd) = core.parse_qc(r)
             vs, vf = F(sn, sd), F(fn_, fd)
             model[k] = vs
             if vs != vf:
